@@ -265,6 +265,19 @@ Theorem C03_kflow_group : forall M dt1 dt2 p, ell_dom M p ->
 Proof. exact kflow_group. Qed.
 Print Assumptions C03_kflow_group.
 
+(* zero step, domain invariance and inverse of the exact flow (used by C10 for WHFast reversibility) *)
+Theorem C03_kflow_zero : forall M p, ell_dom M p -> kflow M 0 p = p.
+Proof. exact kflow_zero. Qed.
+Print Assumptions C03_kflow_zero.
+
+Theorem C03_kflow_dom : forall M dt p, ell_dom M p -> ell_dom M (kflow M dt p).
+Proof. exact kflow_dom. Qed.
+Print Assumptions C03_kflow_dom.
+
+Theorem C03_kflow_inverse : forall M dt p, ell_dom M p -> kflow M (- dt) (kflow M dt p) = p.
+Proof. exact kflow_inverse. Qed.
+Print Assumptions C03_kflow_inverse.
+
 (* the model's Newton step over R is the Newton iterate; its fixed points are the roots *)
 Theorem C03_newton_step_is_newton_iterate : forall beta r0 eta0 zeta0 dt X,
   let '(G0, G1, G2, G3) := fst (stiefel_Gs3 RNum beta X) in
